@@ -269,11 +269,23 @@ def step (d : DState) (line : String) : DState × String :=
       ({ d with cthreads := padded.set k cmds }, "ok")
     | none => (d, "bad-op")
   | "sched" :: ids =>
-    let sched := ids.filterMap (·.toNat?)
+    -- tokens: `i` = thread i makes its next call; `T` = the clock ticks; `i~` = thread i makes its next call with the clock
+    -- reading from before the last tick
     let n := d.cthreads.length
     let completion := (List.replicate 12 (List.range n)).flatten
     let sys : Sys := { store := d.store, threads := d.cthreads.map (fun c => { todo := c }) }
-    let sys' := sys.run d.now (sched ++ completion)
+    let (sys1, now1) := ids.foldl (fun (acc : Sys × Nat) tok =>
+        if tok == "T" then (acc.1, acc.2 + 1)
+        else if tok.endsWith "~" then
+          match (tok.dropRight 1).toNat? with
+          | some i => (acc.1.step (acc.2 - 1) i, acc.2)
+          | none => acc
+        else
+          match tok.toNat? with
+          | some i => (acc.1.step acc.2 i, acc.2)
+          | none => acc) (sys, d.now)
+    let sys' := sys1.run now1 completion
+    let d := { d with now := now1 }
     let res := (List.range n).zip sys'.threads |>.map (fun (i, t) => s!"t{i}=" ++ ",".intercalate (t.results.map canonRes))
     ({ d with store := sys'.store, cthreads := [] }, "res " ++ " ".intercalate res ++ " | " ++ dumpMem sys'.store.mem)
   | ["pcnew", n, l] =>
